@@ -207,6 +207,23 @@ CLAIMED["C19"] = dict(
     technique="TLA+ spec (IGC: decoder line model + encoder format) + TLC exhaustive enumeration of record sequences "
               "and tracks; observation checking by TLC")
 
+CLAIMED["C07"] = dict(
+    text="Model checking: the GeoJSON specification states what an RFC 7946 reader understands (EncGeom / EncFeature "
+         "/ EncFC as tagged JSON trees) and a TOTAL decoder on arbitrary JSON values incl. the encoding/json rules "
+         "that matter (null into slice / number, wrong kind, missing member), with the carve-outs characterised "
+         "exactly (RoundTrips, Canon); TLC checks on the model that decoding the encoder's output is the identity "
+         "on the property's domain for geometries, features and collections. It enumerates geometry trees with "
+         "2/3/4/5 ordinates per position and XYM, empty members at every position, nested collections; features "
+         "with every id kind, bbox of 4 / 6 / none, property maps, null geometry; feature collections; and a "
+         "bounded universe of ~6500 documents (wrong kinds at every level, ragged arrays, nulls, unknown / missing "
+         "members, forged ids and bboxes). The real Marshal output - parsed by encoding/json into a generic tree - "
+         "and every Unmarshal result (accept/reject, value, well-formedness by the FlatGeom predicate, no panic) "
+         "are decided by TLC.",
+    ref="DESIGN.md 3.5, 4-C07", note="Bounded: tree shapes and the JSON universe of the model. Trusted base: " + TB +
+                                     "; encoding/json as the independent JSON reader",
+    technique="TLA+ spec (GeoJSON: encoder + total decoder) + TLC enumeration of geometries, features and JSON "
+              "documents; observation checking by TLC")
+
 NOT_YET = {}
 
 
